@@ -9,7 +9,7 @@ TRUSTED = ["SSE2 / AES-NI intrinsic semantics per the Intel SDM (the reference s
            "the C library applies fesetround / fegetround as requested"]
 ASSUMPTIONS = ["distributivity of the 128-bit product over 32-bit halves (mulh): machine arithmetic treated as mathematical",
                "two's complement identity relating signed and unsigned high product words (smulh)"]
-NOT_DECIDED = ["equality of two whole builds (portable vs optimised) on whole hashes"]
+NOT_DECIDED = ["equality of two whole builds (portable vs optimised) on whole hashes", "rx_div_vec_f128 portable lane-wise division == IEEE division (attempt obligation vector_struct_div, solver timeout)"]
 INC = ["@suites/common"]
 
 
@@ -27,7 +27,8 @@ OBLIGATIONS = [
     ob("vector_struct_logic_set_convert", "h_vec", defines=['RXV_CONTRACTS_H="decls.h"', "VECPART=0"]),
     ob("vector_struct_add_sub", "h_vec", defines=['RXV_CONTRACTS_H="decls.h"', "VECPART=1"], backend="cadical", timeout=600),
     ob("vector_struct_mul", "h_vec", defines=['RXV_CONTRACTS_H="decls.h"', "VECPART=2"], backend="cadical", timeout=1200, tier="thorough"),
-    ob("vector_struct_div", "h_vec", defines=['RXV_CONTRACTS_H="decls.h"', "VECPART=3"], backend="cadical", timeout=1200, tier="thorough"),
+    # lane-wise double division against the FP semantics: no back end finished (cadical 1200 s); kept as an attempt, listed as not decided
+    ob("vector_struct_div", "h_vec", defines=['RXV_CONTRACTS_H="decls.h"', "VECPART=3"], backend="cadical", timeout=1200, tier="attempt"),
     ob("fenv_rounding_mode_mapping", "h_round"),
     ob("mulh_carry_network", "h_mulh", XS.PORTABLE_MULH),
     # no signed-overflow check here: `hi -= b` in the portable smulh can overflow int64_t for some operands (UB in ISO C,
